@@ -18,7 +18,7 @@ EXPLANATION = (
     "the opponent's piece set and en passant is generated from the current target only; (R9) sliders see the whole-board occupancy. "
     'Equality of the generated set with the FIDE set for every position is NOT decided. R1 also requires that nothing but the five '
     'generators and the filter touches the candidate list between its creation and its return (no pre-filter, truncation or reordering '
-    'in between).'
+    'in between). Conditions whose other side panics (assertions) are not counted as guards of a castle move (R3).'
 )
 ASSUMPTIONS = [
     "apply/undo are correct (C03, C04), the attack tables are correct (C11)",
